@@ -29,7 +29,8 @@ try:
     # normalise paths the agent may have written as absolute paths in its own worktree
     for pref in (f'/tmp/seed-{ID}-{N}/', f'/tmp/seed-{ID}-{N}'):
         copy_to = copy_to.replace(pref, '')
-        cmd = cmd.replace(pref, '')
+    # in the command the seeder's worktree becomes the evaluation worktree ("cd /tmp/seed-X-N && ..." stays meaningful)
+    cmd = cmd.replace(f'/tmp/seed-{ID}-{N}', WT)
     copy_dir = copy_to.split(' ')[0].strip() if copy_to else ''
     created = []
     def put_demo():
